@@ -1,5 +1,6 @@
 import Cell2v.Driver.Util
 import Cell2v.Model.Timer
+import Cell2v.Model.TimerSvc
 /-!
 Model driver for C14 (timer manager).
 
@@ -179,44 +180,59 @@ def manAdv (d : DS) (target : Nat) : DS :=
 
 /-! ### service level (actorex/service.Service: tryStartCheckTimer / checkExpired / freeTimer)
 
-The service arms ONE repeating 1 s timer when a request is issued and none is armed; its
-callback `checkExpired` frees the timer — `Cancel` of itself from inside its own callback —
-when the request table is empty, else drops the entries whose deadline has passed.  In the
-timer model that callback is script 1, set just before each firing to `[cancelSelf]` or `[]`
-according to the wrapper's table: everything stays a history of primitive `Timer.step`s. -/
+The service logic is the model `Model/TimerSvc.lean` (theorems: `Props/C14.lean`, section
+`svc`); every step taken here in a service-level case is a `TimerSvc.svcStep`, so what the
+implementation is compared with is a `svcRun` history.  The driver only decides WHEN the
+environment steps happen (which runtime timers are due, when the loop drains). -/
 
-def reqTimeout : Nat := 30000
+open Cell2v.TimerSvc in
+def svOf (d : DS) : Svc := { t := d.m, own := d.own, pending := d.pending }
+
+/-- one step of the service model, `cand` kept aligned with the armings -/
+def stepS (d : DS) (op : TimerSvc.SOp) : DS × List Event :=
+  let r := TimerSvc.svcStep (svOf d) op
+  let cand := r.2.foldl (fun c e =>
+    match e with
+    | .created id t dl _ _ => c ++ [(id, t + dl)]
+    | .rearm id t p => c ++ [(id, t + p)]
+    | _ => c) d.cand
+  ({ d with m := r.1.t, own := r.1.own, pending := r.1.pending, cand := cand, tags := [] }, r.2)
+
+/-- every runtime timer due at the current instant goes off -/
+def settleS (d : DS) : DS :=
+  let due := d.cand.filter (·.2 ≤ d.m.now)
+  let d := { d with cand := d.cand.filter (fun c => !(c.2 ≤ d.m.now)) }
+  let d := due.foldl (fun d c => (stepS d (.expire c.1)).1) d
+  { d with batch := d.batch + 1 }
+
+def advanceToS (d : DS) (t : Nat) : DS :=
+  if t > d.m.now then (stepS d (.advance (t - d.m.now))).1 else d
 
 def liveIds (m : State) : List Nat := ((List.range (m.nextId + 1)).filter (· ≥ 2)).filter fun id => (m.tm id).inMap
 
 def svcSuffix (d : DS) (toks : List String) : String :=
   s!"now={d.m.now} ev={joinWith ";" (toks.filter (·.startsWith "cb:"))} live={joinWith "," ((liveIds d.m).map toString)} own={d.own} pend={d.pending.length} q={d.qlen}"
 
-/-- the run-service loop drains the queue; each element is a firing of a check timer -/
+/-- the run-service loop drains the queue; each receive is a `tick` of the service model -/
 def svcPump : Nat → DS → DS × List String
   | 0, d => (d, [])
   | fuel + 1, d =>
-    let d := dropCancelled d
     match d.m.queue with
     | [] => (d, [])
-    | id :: _ =>
-      let d :=
-        if d.pending.isEmpty then
-          { (stepM d (.defScript 1 [.cancelSelf])).1 with own := if d.own == id then 0 else d.own }
-        else
-          { (stepM d (.defScript 1 [])).1 with pending := d.pending.filter fun p => !(p.2 < d.m.now) }
-      let (d, toks) := runDo d 0
+    | _ :: _ =>
+      let (d, evs) := stepS d .tick
+      let d := settleS d
       let (d, toks') := svcPump fuel d
-      (d, toks ++ toks')
+      (d, evs.filterMap evTok ++ toks')
 
 def svcAdv : Nat → DS → Nat → DS × List String
   | 0, d, _ => (d, [])
   | fuel + 1, d, target =>
     let (d, toks) := svcPump 1000 d
     match minExp d target with
-    | none => (advanceTo d target, toks)
+    | none => (advanceToS d target, toks)
     | some e =>
-      let d := settle (advanceTo d e)
+      let d := settleS (advanceToS d e)
       let (d, toks') := svcAdv fuel d target
       (d, toks ++ toks')
 
@@ -225,17 +241,13 @@ def execSvc (d : DS) (ws : List String) : DS × String :=
   | some "sreq" =>
     match kvNat ws "k" with
     | some k =>
-      let d := { d with pending := d.pending ++ [(k, d.m.now + reqTimeout)] }
-      let d := if d.own == 0 then
-          let d := settle (stepM d (.add 1000 1 [])).1
-          { d with own := d.m.nextId }
-        else d
+      let d := settleS (stepS d (.req k)).1
       (d, svcSuffix d [])
     | none => (d, "bad-op")
   | some "sresp" =>
     match kvNat ws "k" with
     | some k =>
-      let d := { d with pending := d.pending.filter fun p => p.1 != k }
+      let d := (stepS d (.resp k)).1
       (d, svcSuffix d [])
     | none => (d, "bad-op")
   | some "sadv" =>
